@@ -360,6 +360,15 @@ type c28Case struct {
 	Es   []string   `json:"es"`
 	Form string     `json:"form"`
 	Same bool       `json:"same"`
+	Ops  []c28Op           `json:"ops"` // "v" / "w": the calls of a value session ...
+	Res  []json.RawMessage `json:"res"` // ... and the result the spec gives for each
+	Mh   []int             `json:"mh"`  // "w": the binary name
+}
+
+// one call of a value session (spec: Call / Scribble)
+type c28Op struct {
+	Op string `json:"op"`
+	Of int    `json:"of"`
 }
 
 // ---- observation of the real parser ------------------------------------------------------------
@@ -649,6 +658,403 @@ func (tb *c28Tab) checkBad(c *c28Case) string {
 	panic("form " + c.Form)
 }
 
+// ---- value sessions (spec: PathOps / NameOps / Scribble, SStep) ---------------------------------------
+// A session holds the value through several handles (the original, copies taken before and after every
+// scribble, wrappers), every value derived by an earlier call and every slice the calls left with the
+// caller.  Scribble(i) overwrites the slice of call i (index-assign over the whole backing array, then
+// append into re-slices of it).  After EVERY step all handles, all derived values and all still untouched
+// slices are observed again and compared with what the spec gave.
+
+const c28Junk = "zz-scribbled"
+
+func c28ScribbleStrings(r []string) {
+	for i := range r {
+		r[i] = fmt.Sprintf("%s%d", c28Junk, i)
+	}
+	full := r[:cap(r)]
+	for i := range full {
+		full[i] = fmt.Sprintf("%s%d", c28Junk, i)
+	}
+	if len(r) > 0 {
+		r[0] = ".."
+	}
+	for k := 0; k <= len(r) && k <= 2; k++ { // append into re-slices: writes in place while capacity lasts
+		_ = append(r[:k], "ipfs", c28Junk, "..", "")
+	}
+}
+
+func c28ScribbleBytes(r []byte) {
+	full := r[:cap(r)]
+	for i := range full {
+		full[i] ^= 0xa5
+	}
+	for i := range r {
+		r[i] = '/'
+	}
+	for k := 0; k <= len(r) && k <= 2; k++ {
+		_ = append(r[:k], "/ipns/zz"...)
+	}
+}
+
+type c28Der struct {
+	of  int
+	p   path.Path
+	exp c28Parsed
+}
+type c28StrSlice struct {
+	of        int
+	s         []string
+	exp       []string // tokens the spec gave (nil for argument slices: nothing to re-check)
+	scribbled bool
+}
+
+type c28PathSess struct {
+	tb      *c28Tab
+	val     c28Parsed // the spec's value
+	handles []path.Path
+	ders    []c28Der
+	slices  []*c28StrSlice
+}
+
+func c28EqToks(a, b []string) bool { return strings.Join(a, "\x00") == strings.Join(b, "\x00") }
+
+func (tb *c28Tab) openPath(toks []string) (*c28PathSess, c28Parsed, string) {
+	p, err := path.NewPath(tb.join(toks))
+	o, d := tb.observe(p, err)
+	if d != "" || err != nil {
+		return nil, o, d
+	}
+	s := &c28PathSess{tb: tb, val: o}
+	s.handles = append(s.handles, p)
+	q := p // a copy of the value taken before any call
+	s.handles = append(s.handles, q)
+	if ip, ok := p.(path.ImmutablePath); ok {
+		cp := ip // copy of the concrete struct
+		s.handles = append(s.handles, cp)
+		if w, err := path.NewImmutablePath(p); err == nil {
+			s.handles = append(s.handles, w) // wrapper around the same value
+		}
+	}
+	return s, o, ""
+}
+
+// call performs one step; res = what the real code returned, projected into the model vocabulary
+func (s *c28PathSess) call(i int, op c28Op) (res any, detail string) {
+	tb, p := s.tb, s.handles[0]
+	der := func(q path.Path, err error) (any, string) {
+		o, d := tb.observe(q, err)
+		if d == "" && err == nil {
+			s.ders = append(s.ders, c28Der{of: i, p: q, exp: o}) // i = 1-based index of the call
+		}
+		return o, d
+	}
+	switch op.Op {
+	case "Segments": // taken from every handle held; all the returned slices belong to the caller
+		var first []string
+		for hi, h := range s.handles {
+			r := h.Segments()
+			toks := tb.toTokens(r)
+			s.slices = append(s.slices, &c28StrSlice{of: i, s: r, exp: toks})
+			if hi == 0 {
+				first = toks
+			} else if !c28EqToks(first, toks) {
+				return first, fmt.Sprintf("Segments() of handle %d = %v, of handle 0 = %v", hi, toks, first)
+			}
+		}
+		return first, ""
+	case "String":
+		return tb.toTokens(strings.Split(p.String(), "/")), ""
+	case "Reparse":
+		return der(path.NewPath(p.String()))
+	case "Join":
+		arg := []string{tb.text["a"]}
+		s.slices = append(s.slices, &c28StrSlice{of: i, s: arg})
+		return der(path.Join(p, arg...))
+	case "FromSegs":
+		arg := append(make([]string, 0, len(s.val.Segs)+3), tb.texts(s.val.Segs)...) // caller's slice, spare capacity
+		s.slices = append(s.slices, &c28StrSlice{of: i, s: arg})
+		return der(path.NewPathFromSegments(arg...))
+	case "Immutable":
+		w, err := path.NewImmutablePath(p)
+		if err != nil {
+			return M{"ok": false, "cid": c28Cid{"none", 0}}, ""
+		}
+		s.handles = append(s.handles, w)
+		o, d := tb.observe(w, nil)
+		return M{"ok": true, "cid": o.Cid}, d
+	case "Scribble":
+		n := 0
+		for _, sl := range s.slices {
+			if sl.of == op.Of && !sl.scribbled {
+				c28ScribbleStrings(sl.s)
+				sl.scribbled = true
+				n++
+			}
+		}
+		if n == 0 {
+			tb.t.Fatalf("session: Scribble(%d) has no open slice", op.Of)
+		}
+		var cp path.Path = s.handles[0] // and a copy taken after the scribble
+		s.handles = append(s.handles, cp)
+		return "none", ""
+	}
+	tb.t.Fatalf("session: unknown path call %q", op.Op)
+	return nil, ""
+}
+
+// reobserve: every handle, every derived value, every untouched slice -- after a step
+func (s *c28PathSess) reobserve() (vals []c28Parsed, ders []M, open []M, detail string) {
+	ders, open = []M{}, []M{}
+	for hi, h := range s.handles {
+		o, d := s.tb.observe(h, nil)
+		if d != "" && detail == "" {
+			detail = fmt.Sprintf("handle %d: %s", hi, d)
+		}
+		vals = append(vals, o)
+	}
+	for _, dv := range s.ders {
+		o, d := s.tb.observe(dv.p, nil)
+		if d != "" && detail == "" {
+			detail = fmt.Sprintf("value derived by call %d: %s", dv.of, d)
+		}
+		ders = append(ders, M{"of": dv.of, "p": o})
+	}
+	for _, sl := range s.slices {
+		if !sl.scribbled && sl.exp != nil {
+			open = append(open, M{"of": sl.of, "sg": s.tb.toTokens(sl.s)})
+		}
+	}
+	return
+}
+
+func c28JSON(v any) string { b, _ := json.Marshal(v); return string(b) }
+
+// c28Distinct: the distinct observations (the spec demands that ALL of them are the session's value, so
+// logging each different one once loses nothing and keeps the trace small)
+func c28Distinct[T any](xs []T) []T {
+	seen, out := map[string]bool{}, []T{}
+	for _, x := range xs {
+		if k := c28JSON(x); !seen[k] {
+			seen[k] = true
+			out = append(out, x)
+		}
+	}
+	return out
+}
+
+// same JSON value?  (the spec's result vs the projected real one)
+func c28SameJSON(want json.RawMessage, got any) bool {
+	var a, b any
+	if json.Unmarshal(want, &a) != nil || json.Unmarshal([]byte(c28JSON(got)), &b) != nil {
+		return false
+	}
+	return c28JSON(a) == c28JSON(b)
+}
+
+func (tb *c28Tab) checkPathSession(c *c28Case) string {
+	s, o, d := tb.openPath(c.T)
+	if d != "" {
+		return fmt.Sprintf("NewPath(%q): %s", tb.join(c.T), d)
+	}
+	if s == nil || !c28EqParsed(o, *c.P) {
+		return fmt.Sprintf("NewPath(%q) = %+v, spec expects %+v", tb.join(c.T), o, *c.P)
+	}
+	if len(c.Res) != len(c.Ops) {
+		tb.t.Fatalf("session case: %d calls, %d results", len(c.Ops), len(c.Res))
+	}
+	exp := map[int]json.RawMessage{}
+	for i, op := range c.Ops {
+		res, d := s.call(i+1, op)
+		hist := fmt.Sprintf("%q after %s", tb.join(c.T), c28JSON(c.Ops[:i+1]))
+		if d != "" {
+			return fmt.Sprintf("%s: %s", hist, d)
+		}
+		if !c28SameJSON(c.Res[i], res) {
+			return fmt.Sprintf("%s: call returned %s, spec expects %s", hist, c28JSON(res), c.Res[i])
+		}
+		exp[i+1] = c.Res[i]
+		vals, ders, open, d := s.reobserve()
+		if d != "" {
+			return fmt.Sprintf("%s: %s", hist, d)
+		}
+		for hi, v := range vals {
+			if !c28EqParsed(v, *c.P) {
+				return fmt.Sprintf("%s: handle %d of the path now reads %+v, spec: still %+v", hist, hi, v, *c.P)
+			}
+		}
+		for _, dv := range ders {
+			if !c28SameJSON(exp[dv["of"].(int)], dv["p"]) {
+				return fmt.Sprintf("%s: the value derived by call %d now reads %s, spec: still %s", hist, dv["of"], c28JSON(dv["p"]), exp[dv["of"].(int)])
+			}
+		}
+		for _, sl := range open {
+			if !c28SameJSON(exp[sl["of"].(int)], sl["sg"]) {
+				return fmt.Sprintf("%s: the untouched slice returned by call %d now reads %s, spec: still %s", hist, sl["of"], c28JSON(sl["sg"]), exp[sl["of"].(int)])
+			}
+		}
+	}
+	return ""
+}
+
+// ---- name sessions ----
+
+type c28ByteSlice struct {
+	of        int
+	b         []byte
+	exp       []byte
+	scribbled bool
+}
+type c28NameSess struct {
+	t       *testing.T
+	handles []Name
+	slices  []*c28ByteSlice
+}
+
+// c28TextOf: projection of a text form back to the spec's ToText record (ns, of): the text must be EXACTLY the
+// canonical base36 libp2p-key CID of the bytes it decodes to (else of = the text itself, which matches nothing)
+func c28TextOf(txt string) M {
+	ns := strings.HasPrefix(txt, NamespacePrefix)
+	body := strings.TrimPrefix(txt, NamespacePrefix)
+	c, err := cid.Decode(body)
+	if err == nil && c.Type() == cid.Libp2pKey {
+		if back, err := cid.NewCidV1(cid.Libp2pKey, c.Hash()).StringOfBase(mb.Base36); err == nil && back == body {
+			return M{"ns": ns, "of": c28Ints([]byte(c.Hash()))}
+		}
+	}
+	return M{"ns": ns, "of": "?" + txt}
+}
+
+func c28OpenName(t *testing.T, pid peer.ID) *c28NameSess {
+	n := NameFromPeer(pid)
+	return &c28NameSess{t: t, handles: []Name{n, n}}
+}
+
+func (s *c28NameSess) call(i int, op c28Op) (any, string) {
+	n := s.handles[0]
+	nameRes := func(m Name, err error) any {
+		if err != nil {
+			return M{"ok": false, "mh": []int{}}
+		}
+		s.handles = append(s.handles, m)
+		return M{"ok": true, "mh": c28Ints([]byte(m.Peer()))}
+	}
+	switch op.Op {
+	case "RoutingKey": // taken from every handle held
+		var first []byte
+		for hi, h := range s.handles {
+			r := h.RoutingKey()
+			s.slices = append(s.slices, &c28ByteSlice{of: i, b: r, exp: append([]byte{}, r...)})
+			if hi == 0 {
+				first = append([]byte{}, r...)
+			} else if !bytes.Equal(first, r) {
+				return c28Ints(first), fmt.Sprintf("RoutingKey() of handle %d = %x, of handle 0 = %x", hi, r, first)
+			}
+		}
+		return c28Ints(first), ""
+	case "JSON":
+		r, err := n.MarshalJSON()
+		if err != nil {
+			return nil, "MarshalJSON: " + err.Error()
+		}
+		var txt string
+		if err := json.Unmarshal(r, &txt); err != nil {
+			return nil, fmt.Sprintf("MarshalJSON gave %q: %v", r, err)
+		}
+		s.slices = append(s.slices, &c28ByteSlice{of: i, b: r})
+		return c28TextOf(txt), ""
+	case "FromRK":
+		buf := append(make([]byte, 0, 160), c28Prefix...) // caller's buffer, spare capacity
+		buf = append(buf, []byte(n.Peer())...)
+		s.slices = append(s.slices, &c28ByteSlice{of: i, b: buf})
+		return nameRes(NameFromRoutingKey(buf)), ""
+	case "FromJSON":
+		buf := append(make([]byte, 0, 160), '"')
+		buf = append(append(buf, n.String()...), '"')
+		s.slices = append(s.slices, &c28ByteSlice{of: i, b: buf})
+		var m Name
+		err := m.UnmarshalJSON(buf)
+		return nameRes(m, err), ""
+	case "Peer":
+		return c28Ints([]byte(n.Peer())), ""
+	case "Text":
+		return c28TextOf(n.String()), ""
+	case "Scribble":
+		k := 0
+		for _, sl := range s.slices {
+			if sl.of == op.Of && !sl.scribbled {
+				c28ScribbleBytes(sl.b)
+				sl.scribbled = true
+				k++
+			}
+		}
+		if k == 0 {
+			s.t.Fatalf("session: Scribble(%d) has no open slice", op.Of)
+		}
+		s.handles = append(s.handles, s.handles[0])
+		return "none", ""
+	}
+	s.t.Fatalf("session: unknown name call %q", op.Op)
+	return nil, ""
+}
+
+func (s *c28NameSess) reobserve() (vals []M, open []M, detail string) {
+	open = []M{}
+	for hi, h := range s.handles {
+		mhb := []byte(h.Peer())
+		if !h.Equal(s.handles[0]) || !bytes.Equal([]byte(h.Cid().Hash()), mhb) || c28JSON(c28TextOf(h.String())["of"]) != c28JSON(c28Ints(mhb)) ||
+			h.AsPath().String() != NamespacePrefix+h.String() {
+			detail = fmt.Sprintf("handle %d: Equal / Cid / String / AsPath disagree with Peer() %x", hi, mhb)
+		}
+		vals = append(vals, M{"mh": c28Ints(mhb), "rk": c28Ints(h.RoutingKey())})
+	}
+	for _, sl := range s.slices {
+		if !sl.scribbled && sl.exp != nil {
+			open = append(open, M{"of": sl.of, "b": c28Ints(sl.b)})
+		}
+	}
+	return
+}
+
+func (tb *c28Tab) checkNameSession(c *c28Case) string {
+	b := make([]byte, len(c.Mh))
+	for i, x := range c.Mh {
+		b[i] = byte(x)
+	}
+	pid, err := peer.IDFromBytes(b)
+	if err != nil {
+		tb.t.Fatalf("projection: the spec's representative %x is not a multihash: %v", b, err)
+	}
+	s := c28OpenName(tb.t, pid)
+	wantVal := c28JSON(M{"mh": c28Ints(b), "rk": c28Ints(append(append([]byte{}, c28Prefix...), b...))})
+	exp := map[int]json.RawMessage{}
+	for i, op := range c.Ops {
+		res, d := s.call(i+1, op)
+		hist := fmt.Sprintf("name %x after %s", b, c28JSON(c.Ops[:i+1]))
+		if d != "" {
+			return hist + ": " + d
+		}
+		if !c28SameJSON(c.Res[i], res) {
+			return fmt.Sprintf("%s: call returned %s, spec expects %s", hist, c28JSON(res), c.Res[i])
+		}
+		exp[i+1] = c.Res[i]
+		vals, open, d := s.reobserve()
+		if d != "" {
+			return hist + ": " + d
+		}
+		for hi, v := range vals {
+			if c28JSON(v) != wantVal {
+				return fmt.Sprintf("%s: handle %d of the name now reads %s, spec: still %s", hist, hi, c28JSON(v), wantVal)
+			}
+		}
+		for _, sl := range open {
+			if !c28SameJSON(exp[sl["of"].(int)], sl["b"]) {
+				return fmt.Sprintf("%s: the untouched bytes returned by call %d now read %s", hist, sl["of"], c28JSON(sl["b"]))
+			}
+		}
+	}
+	return ""
+}
+
 func TestVerifC28(t *testing.T) {
 	defer vFlush()
 	switch vMode() {
@@ -679,6 +1085,10 @@ func c28Replay(t *testing.T) {
 			d = tb.checkName(&c)
 		case "x":
 			d = tb.checkBad(&c)
+		case "v":
+			d = tb.checkPathSession(&c)
+		case "w":
+			d = tb.checkNameSession(&c)
 		default:
 			t.Fatalf("case %d: kind %q", i, c.K)
 		}
@@ -721,14 +1131,79 @@ func c28RkInput(v string, b []byte) []byte {
 	panic("variant " + v)
 }
 
+
+// c28NextCall: a random call the spec's NextCalls allows (first call yields a slice; Scribble needs an open slice)
+func c28NextCall(r *mrand.Rand, alphabet []string, yielding map[string]bool, ops []c28Op) c28Op {
+	var open []int
+	done := map[int]bool{}
+	for _, o := range ops {
+		if o.Op == "Scribble" {
+			done[o.Of] = true
+		}
+	}
+	for i, o := range ops {
+		if yielding[o.Op] && !done[i+1] {
+			open = append(open, i+1)
+		}
+	}
+	if len(open) > 0 && r.Intn(5) < 2 {
+		return c28Op{"Scribble", open[r.Intn(len(open))]}
+	}
+	for {
+		o := alphabet[r.Intn(len(alphabet))]
+		if len(ops) > 0 || yielding[o] {
+			return c28Op{o, 0}
+		}
+	}
+}
+
+var c28Yielding = map[string]bool{"Segments": true, "Join": true, "FromSegs": true, "RoutingKey": true, "JSON": true, "FromRK": true, "FromJSON": true}
+var c28PathOps = []string{"Segments", "Segments", "String", "Reparse", "Join", "FromSegs", "Immutable"}
+var c28NameOps = []string{"RoutingKey", "RoutingKey", "JSON", "FromRK", "FromJSON", "Peer", "Text"}
+
+// c28RecordPathSession: a value session on the path parsed from toks (already known to be accepted)
+func c28RecordPathSession(tb *c28Tab, r *mrand.Rand, toks []string) {
+	s, o, d := tb.openPath(toks)
+	vEmit(M{"ev": "VOpen", "t": toks, "p": o, "detail": d})
+	if s == nil {
+		return
+	}
+	var ops []c28Op
+	for n := 3 + r.Intn(5); n > 0; n-- {
+		op := c28NextCall(r, c28PathOps, c28Yielding, ops)
+		ops = append(ops, op)
+		res, d := s.call(len(ops), op)
+		vals, ders, open, d2 := s.reobserve()
+		if d == "" {
+			d = d2
+		}
+		vEmit(M{"ev": "VCall", "op": op.Op, "of": op.Of, "r": res, "vals": c28Distinct(vals), "ders": c28Distinct(ders), "open": c28Distinct(open), "detail": d})
+	}
+}
+
+func c28RecordNameSession(t *testing.T, r *mrand.Rand, pid peer.ID) {
+	s := c28OpenName(t, pid)
+	var ops []c28Op
+	for n := 3 + r.Intn(4); n > 0; n-- {
+		op := c28NextCall(r, c28NameOps, c28Yielding, ops)
+		ops = append(ops, op)
+		res, d := s.call(len(ops), op)
+		vals, open, d2 := s.reobserve()
+		if d == "" {
+			d = d2
+		}
+		vEmit(M{"ev": "NCall", "op": op.Op, "of": op.Of, "r": res, "vals": c28Distinct(vals), "open": c28Distinct(open), "detail": d})
+	}
+}
+
 // c28RecordNames: for every binary key class of the spec (VERIF_IN) log the concrete multihash used, its
 // routing key, and the result of NameFromRoutingKey on every derived byte string.
-func c28RecordNames(t *testing.T, tb *c28Tab) {
+func c28RecordNames(t *testing.T, tb *c28Tab, rng *mrand.Rand) {
 	in := vIn()
 	if len(in) == 0 {
 		t.Fatalf("record mode needs the key classes of the spec in VERIF_IN")
 	}
-	for _, raw := range in {
+	for ki, raw := range in {
 		var kc c28Key
 		if err := json.Unmarshal(raw, &kc); err != nil {
 			t.Fatal(err)
@@ -750,20 +1225,24 @@ func c28RecordNames(t *testing.T, tb *c28Tab) {
 			}
 			vEmit(M{"ev": "NameRK", "v": v, "d": c28Ints(d), "r": r})
 		}
+		// a value session on the concrete name (quick: every fourth class, rotating with the seed)
+		if !vQuick() || (ki+int(vSeed()))%4 == 0 {
+			c28RecordNameSession(t, rng, pid)
+		}
 	}
 }
 
 func c28Record(t *testing.T) {
 	tb := c28MkTab(t)
-	c28RecordNames(t, tb)
 	r := mrand.New(mrand.NewSource(vSeed()))
+	c28RecordNames(t, tb, r)
 	all := []string{"e", "dot", "dd", "ipfs", "ipns", "ipld", "IPFS", "cidV0", "cidV1b32", "cidV1b36", "cidV1b58",
 		"pidRsaB58", "pidEdB58", "pidCidB36", "a", "uni", "sp", "dots3", "badcid"}
 	struct_ := []string{"e", "dot", "dd", "dd", "e", "a"}
 	schemes := []string{"ipfs", "IPFS", "IpFs", "ipns", "IPNS", "ipld", "iPLD", "http", "ipfsx", "ipf"}
-	N := 1500
+	N, maxSess, nsess := 1200, 50, 0
 	if !vQuick() {
-		N = 12000
+		N, maxSess = 12000, 700
 	}
 	for i := 0; i < N; i++ {
 		var toks []string
@@ -808,5 +1287,9 @@ func c28Record(t *testing.T) {
 		p, err := path.NewPath(s)
 		o, d := tb.observe(p, err)
 		vEmit(M{"ev": "Parse", "t": toks, "p": o, "sg": tb.toTokens(path.StringToSegments(s)), "detail": d})
+		if err == nil && d == "" && nsess < maxSess && r.Intn(3) == 0 {
+			nsess++
+			c28RecordPathSession(tb, r, toks)
+		}
 	}
 }
